@@ -325,13 +325,45 @@ theorem parVals_shape (n : Nat) : ∀ (cs : List (Coef F)) (xs ks : List F), xs.
         · simp [parVal, hc0.1, hc0.2.1, hc0.2.2]
         · exact h2 b hb
 
-/-- **no truncation**: one block per source, every block as long as the trial's background array -/
+omit [Add F] [Sub F] [Mul F] [Div F] [LT F] [DecidableLT F] [OfScientific F] in
+/-- picking every position gives the array back -/
+theorem pick_range (b : List F) : pick b (List.range b.length) = b := by
+  unfold pick
+  induction b using List.reverseRecOn with
+  | nil => rfl
+  | append_singleton l a ih =>
+    rw [List.length_append, List.length_singleton, List.range_succ, List.filterMap_append]
+    have : (List.range l.length).filterMap (fun i => (l ++ [a])[i]?) =
+        (List.range l.length).filterMap (fun i => l[i]?) := by
+      apply List.filterMap_congr
+      intro i hi
+      rw [List.mem_range] at hi
+      rw [List.getElem?_append_left hi]
+    rw [this, ih]
+    simp
+
+omit [Add F] [Sub F] [Mul F] [Div F] [LT F] [DecidableLT F] [OfScientific F] in
+theorem zipWith_replicate {α β γ : Type} (f : α → β → γ) (b : β) : ∀ (l : List α),
+    List.zipWith f l (List.replicate l.length b) = l.map (fun x => f x b) := by
+  intro l
+  induction l with
+  | nil => rfl
+  | cons a l ih => simp [List.replicate_succ, ih]
+
+/-- **no truncation** (no event selection method: every source paired with every event): one block
+per source, every block as long as the trial's background array -/
 theorem evalPure_shape (W : World D S F) (parabola : Bool) (d : D) (s : S) (q : Query F)
-    (hw : ∀ k g, (W.man d s k g).length = (W.bkg d s).length) (hq : q.x.length = q.key.length) :
+    (hw : ∀ k g, (W.man d s k g).length = (W.bkg d s).length)
+    (hsel : ∀ k, W.sel d s k = List.range (W.bkg d s).length) (hq : q.x.length = q.key.length) :
     (evalPure W parabola d s q).1.length = q.key.length ∧
     (evalPure W parabola d s q).2.length = q.key.length ∧
     (∀ b ∈ (evalPure W parabola d s q).1, b.length = (W.bkg d s).length) ∧
     (∀ b ∈ (evalPure W parabola d s q).2, b.length = (W.bkg d s).length) := by
+  have hbk : bkgBlocks W d s q.key.length (W.bkg d s) = List.replicate q.key.length (W.bkg d s) := by
+    simp only [bkgBlocks, hsel, pick_range]
+    induction q.key.length with
+    | zero => rfl
+    | succ n ih => rw [List.range_succ, List.map_append, ih, List.replicate_succ']; rfl
   have key : ∃ sig : List (List F × List F), sig.length = q.key.length ∧
       BlocksLen (W.bkg d s).length sig ∧
       evalPure W parabola d s q =
@@ -340,11 +372,15 @@ theorem evalPure_shape (W : World D S F) (parabola : Bool) (d : D) (s : S) (q : 
     | false =>
       obtain ⟨c1, c2⟩ := linCoefs_shape W d s _ hw q.key 0
       obtain ⟨v1, v2⟩ := linVals_shape (W.bkg d s).length _ q.x (by rw [hq, c1]) c2
-      exact ⟨_, by rw [v1, c1], v2, by simp [evalPure, finish, coefPure]⟩
+      refine ⟨_, by rw [v1, c1], v2, ?_⟩
+      simp only [evalPure, finish, coefPure, hbk, Bool.false_eq_true, ↓reduceIte]
+      rw [← c1, ← v1, zipWith_replicate, zipWith_replicate]
     | true =>
       obtain ⟨c1, c2⟩ := parCoefs_shape W d s _ hw q.key 0
       obtain ⟨v1, v2⟩ := parVals_shape (W.bkg d s).length _ q.x q.key (by rw [hq, c1]) (by rw [c1]) c2
-      exact ⟨_, by rw [v1, c1], v2, by simp [evalPure, finish, coefPure]⟩
+      refine ⟨_, by rw [v1, c1], v2, ?_⟩
+      simp only [evalPure, finish, coefPure, hbk, ↓reduceIte]
+      rw [← c1, ← v1, zipWith_replicate, zipWith_replicate]
   obtain ⟨sig, h1, h2, h3⟩ := key
   rw [h3]
   refine ⟨by simp [h1], by simp [h1], ?_, ?_⟩
